@@ -22,7 +22,7 @@ RULE = (
     "points inside an area (fraction 0.02-0.98 of its log width), just below a node (log distance 1e-9..1e-2 of the "
     "area width; 1e-3..1e-2 below x=1) and just above a node; every basis function j of the grid is inverted at every point: "
     f"int_0.5^(1-{CUT:g}) Re[integrand] du (scipy quad, epsrel 1e-10) must equal p_j(x) within {TOL:g}, p_j(x) from the exact "
-    "reference basis (0/1 at nodes). Non-trivial = (degree >= 2 and a point that is not a node) or a singlet-like "
+    "reference basis (0/1 at nodes) and eko's own evaluate_x. Non-trivial = (degree >= 2 and a point that is not a node) or a singlet-like "
     "contour; distinct by the whole case."
 )
 ASSUMPTIONS = [
@@ -162,5 +162,18 @@ def check_case(case):
                 )
                 return res  # one message per case
             worst = max(worst, abs(val - want[j]))
+            # the literal statement: the value eko's own x-space evaluation gives for the same basis function
+            try:
+                own = float(disp[j].evaluate_x(x))
+            except Exception as e:  # noqa: BLE001
+                res.fail(exc_bucket(f"{ID}/evaluate_x", e), f"j={j} x={x!r}: {e!r}")
+                return res
+            if not abs(val - own) <= TOL:
+                res.fail(
+                    f"{ID}/inversion-vs-evaluate_x/{where}",
+                    f"grid n={n} deg={deg} mode0={mode0} x={x!r} ({kind}) j={j}: inverted {val!r}, evaluate_x {own!r} "
+                    f"(reference {want[j]!r})",
+                )
+                return res
     res.classes.append(f"worst-dev={'<=1e-9' if worst <= 1e-9 else '<=1e-7' if worst <= 1e-7 else '<=1e-6' if worst <= 1e-6 else '<=1e-5'}")
     return res
